@@ -21,6 +21,8 @@ os.environ['JEDI_VERIF'] = '1'
 os.environ['PYTHONPATH'] = REPO + os.pathsep + HERE
 
 import jedi  # noqa: E402
+from harness.core import private_cache  # noqa: E402
+private_cache()
 from jedi import _verif  # noqa: E402
 from jedi.api.environment import SameEnvironment  # noqa: E402
 from harness import helperfaults as hf  # noqa: E402
